@@ -153,6 +153,14 @@ def run_nasty(extra=None, tag="nasty"):
     texts = dict(NASTY)
     if extra:
         texts.update(extra)
+    # cyclic definitions of every shape C09 knows (to be cut, to be rejected, mixed): none may take a front end down
+    try:
+        import props.c09 as c09
+        for k9, (files9, want9, chk9) in c09.PROGRAMS.items():
+            if len(files9) == 1:
+                texts["cyclic-" + k9] = files9["main.oal"]
+    except Exception:
+        pass
     # a long file that ends in a deep nest: whatever the parser remembers must keep working however much came before
     texts["long-file-then-deep-nest"] = "".join("let v%d = { 'a num, 'b [str] };\n" % i for i in range(8000)) + \
         "let z = " + "{ 'n " * 12 + "num" + " }" * 12 + ";\nres / on get -> <z>;\n"
@@ -286,6 +294,12 @@ def check():
         c12.memo_lemmas(o, L, S, E, MMm, MS, fsm, memo_structural, on_sat, bad)
     except KeyError as exn:
         o.inconc("memo lemmas: %s" % str(exn)[:160])
+    # an evaluation that does not come back is a crash too: cycles_check must reject what the evaluator cannot cut (shared with C09)
+    try:
+        import props.c09 as c09
+        c09.cycles_lemmas(o, L, S, MC, E, MC.one(r"^(typecheck::)?cycles_check$"), memo_structural, on_sat)
+    except KeyError as exn:
+        o.inconc("cycles_check lemmas: %s" % str(exn)[:160])
     # ... and on the parser terminating at all: no production re-enters itself before a token has been consumed, every
     # round of a list loop consumes one (lib/prodlemma.py, shared with C11)
     try:
